@@ -217,7 +217,7 @@ def run_parent(prop: str, tier: str, seed: int, jobs: int, only: str | None = No
         return EXIT_INCONCLUSIVE
     jobs = max(1, min(jobs, len(cases), getattr(mod, "MAX_JOBS", 16)))
     work = tempfile.mkdtemp(prefix=f"vcheck-{prop}-")
-    timeout = getattr(mod, "TIMEOUT", {"quick": 900, "thorough": 5400})[tier]
+    timeout = getattr(mod, "TIMEOUT", {"quick": 3600, "thorough": 21600})[tier]
     env = dict(os.environ)
     env.update({
         "ACRYO_VERIF": "1", "OMP_NUM_THREADS": "1", "OPENBLAS_NUM_THREADS": "1",
